@@ -309,6 +309,10 @@ def run(tier):
     warnings.filterwarnings("ignore", category=RuntimeWarning)
     sys.unraisablehook = lambda *_a: None
     from graphql import build_schema, execute, execute_sync, parse
+    from graphql.execution import Executor as BaseExecutor
+
+    class UserExecutor(BaseExecutor):
+        """A trivial user subclass of the base executor."""
 
     ck = Check("C03", tier)
     ck.assumptions += ASSUMPTIONS
@@ -361,6 +365,17 @@ def run(tier):
                     ck.violation(f"sync-raises:{q}:{sorted(beh.items())!r}", f"execute_sync raised {type(e).__name__}",
                                  {"relation": "execution never raises", "query": q, "behaviours": repr(sorted(beh.items()))})
                     continue
+                try:
+                    ref_base = execute_sync(schema, doc, World(rng, [None], {p: ("sync", wh) for p, (m, wh) in beh.items()}, []).root(),
+                                            executor_class=UserExecutor if trial % 2 else BaseExecutor)
+                    if ref_base.formatted != ref.formatted:
+                        ck.violation(f"sync-executor-class:{q}:{sorted(beh.items())!r}",
+                                     "execute_sync with executor_class=Executor (or a trivial subclass) differs from the default execute_sync",
+                                     {"relation": "executor_class=Executor behaves like the default", "query": q,
+                                      "behaviours": repr(sorted(beh.items())), "impl": ref_base.formatted, "reference": ref.formatted})
+                except Exception as e:  # noqa: BLE001
+                    ck.violation(f"sync-raises:{q}:{sorted(beh.items())!r}:base", f"execute_sync(executor_class=Executor) raised {type(e).__name__}",
+                                 {"relation": "execution never raises", "query": q, "behaviours": repr(sorted(beh.items()))})
                 for pr in wf(ref, natural):
                     ck.violation(f"wf-sync:{q}:{sorted(beh.items())!r}", f"synchronous response ill-formed: {pr}",
                                  {"relation": "response well-formed", "query": q, "behaviours": repr(sorted(beh.items())),
@@ -381,9 +396,14 @@ def run(tier):
                     ctl = Controller()
                     h = [ctl]
                     wa = World(rng, h, beh, loga)
-                    kind, res = ctl.run(lambda c: execute(schema, doc, wa.root()), list(pi))
+                    # a share of the runs goes through the documented extension point: executor_class = the base Executor
+                    # or a trivial user subclass of it
+                    xc = (None, BaseExecutor, UserExecutor)[nreq % 3]
+                    xkw = {} if xc is None else {"executor_class": xc}
+                    kind, res = ctl.run(lambda c: execute(schema, doc, wa.root(), **xkw), list(pi))
                     nreq += 1
-                    key = f"order:{q}:{sorted(beh.items())!r}:{pi!r}"
+                    ck.count("executor_class_" + ("default" if xc is None else xc.__name__))
+                    key = f"order:{q}:{sorted(beh.items())!r}:{pi!r}:{'default' if xc is None else xc.__name__}"
                     rep = {"relation": "data(order) == data(sync)", "query": q, "behaviours": repr(sorted(beh.items())),
                            "order": repr(pi), "completed": repr(ctl.completed_order)}
                     ck.note_case((q, repr(sorted(beh.items())), pi), nontrivial=len(async_labels) >= 2 or bool(natural) or any(wh == "raise" for _, wh in beh.values()))
